@@ -55,7 +55,7 @@ impl Solver {
     { unimplemented!() }
     pub fn add_clause<I: ClauseLike>(&mut self, clause: I) -> (r: Result<(), ConstraintOperationError>)
         requires old(self).satisfaction_solver.ready(),
-        ensures final(self).satisfaction_solver.ready(),
+        ensures final(self).satisfaction_solver.ready(), final(self).satisfaction_solver.base == old(self).satisfaction_solver.base,
                 forall|a: Asg| #![trigger (final(self).satisfaction_solver.model@)(a)] #![trigger (old(self).satisfaction_solver.model@)(a)] (final(self).satisfaction_solver.model@)(a) <==> ((old(self).satisfaction_solver.model@)(a) && clause_holds(clause.preds(), a)),
                 r is Err ==> final(self).satisfaction_solver.unsat(),
     { self.satisfaction_solver.add_clause(clause) }
